@@ -103,6 +103,22 @@ async fn body(seed: u64, trace: Arc<Trace>, threaded: bool) -> Outcome {
     let settle_ms = |ms: u64| async move {
         tokio::time::sleep(std::time::Duration::from_millis(ms)).await;
     };
+    // ---- lock-ordered monitor: once an actor has published Draining/Stopping and the tree lock has been taken after that
+    // (here: by this tap, from the exiting thread itself), no link may reach its mutation step with that actor as the
+    // supervisor (>= Draining) or as the child (>= Stopping): link decides under the same lock, so it must see the status.
+    let tap_log: Arc<std::sync::Mutex<Vec<(u8, u64, u64, u64)>>> = Arc::new(std::sync::Mutex::new(vec![]));
+    {
+        let tl = tap_log.clone();
+        crate::ctl::ctl().set_tap(Some(Arc::new(move |id, a, b| {
+            use ractor::verif::pt;
+            if id == pt::CLEANUP_AFTER_STOPPING || id == pt::DRAIN_AFTER_STATUS {
+                let _ = ActorCell::verif_tree_snapshot(&[]); // tree-lock round trip
+                tl.lock().unwrap().push((if id == pt::DRAIN_AFTER_STATUS { 1 } else { 2 }, a, 0, crate::trace::stamp()));
+            } else if id == pt::LINK_IN_LOCK {
+                tl.lock().unwrap().push((0, a, b, crate::trace::stamp()));
+            }
+        })));
+    }
     // ---- build the tree
     let n = p.range(3, 12) as usize;
     let mut nodes: Vec<Node> = vec![];
@@ -166,11 +182,37 @@ async fn body(seed: u64, trace: Arc<Trace>, threaded: bool) -> Outcome {
         let (cells, tr, stop_flag) = (cells.clone(), trace.clone(), stop_flag.clone());
         vt::spawn_h("c05-observer", async move {
             let mut count = 0u64;
+            // statuses read BEFORE a snapshot was taken, and that snapshot: whoever takes the tree lock after an actor was
+            // seen Draining/Stopping must find its admission of children closed (link decides under that lock)
+            let mut prev: Option<(Vec<ActorStatus>, Vec<(Option<Vec<ActorId>>, Option<ActorId>)>)> = None;
             while !stop_flag.load(Ordering::SeqCst) {
+                let st_before: Vec<ActorStatus> = cells.iter().map(|c| c.get_status()).collect();
                 let snap = ActorCell::verif_tree_snapshot(&cells);
                 for (c, dd) in check_snapshot(&cells, &snap, false) {
                     tr.online_violation(&c, dd);
                 }
+                if let Some((pst, psnap)) = &prev {
+                    for i in 0..cells.len() {
+                        if pst[i] >= ActorStatus::Draining {
+                            let old: Vec<ActorId> = psnap[i].0.clone().unwrap_or_default();
+                            for c in snap[i].0.clone().unwrap_or_default() {
+                                if !old.contains(&c) {
+                                    tr.online_violation(
+                                        "gained-child-while-exiting",
+                                        format!("{} was seen {:?}, then listed children {old:?}, later lists the new child {c}", cells[i].get_id(), pst[i]),
+                                    );
+                                }
+                            }
+                        }
+                        if pst[i] >= ActorStatus::Stopping && snap[i].1.is_some() && snap[i].1 != psnap[i].1 {
+                            tr.online_violation(
+                                "exiting-child-relinked",
+                                format!("{} was seen {:?} with supervisor {:?}, later has the new supervisor {:?}", cells[i].get_id(), pst[i], psnap[i].1, snap[i].1),
+                            );
+                        }
+                    }
+                }
+                prev = Some((st_before, snap));
                 count += 1;
                 tokio::task::yield_now().await;
                 if count % 4 == 0 {
@@ -382,6 +424,56 @@ async fn body(seed: u64, trace: Arc<Trace>, threaded: bool) -> Outcome {
     for (c, dd) in trace.online_violations.lock().unwrap().iter() {
         v.push((c.clone(), dd.clone()));
     }
+    crate::ctl::ctl().set_tap(None);
+    {
+        let log = tap_log.lock().unwrap().clone();
+        for (k, x, a, s2) in log.iter().filter(|e| e.0 == 0) {
+            let _ = k;
+            for (kind, who, _, s1) in log.iter().filter(|e| e.0 != 0) {
+                if s1 < s2 && who == a {
+                    v.push(("link-after-exit-began".into(), format!("a link of child pid {x} under supervisor pid {a} reached its mutation step (stamp #{s2}) after the supervisor had published {} and the tree lock had since been taken (stamp #{s1})", if *kind == 1 { "Draining" } else { "Stopping" })));
+                }
+                if s1 < s2 && who == x && *kind == 2 {
+                    v.push(("link-after-exit-began".into(), format!("a link of child pid {x} under supervisor pid {a} reached its mutation step (stamp #{s2}) after the child had published Stopping and the tree lock had since been taken (stamp #{s1})")));
+                }
+            }
+        }
+    }
+    // ---- an actor that linked a child during pre_start and then fails to start takes that child down too
+    if p.chance(1, 3) {
+        let child_name = format!("c05-{seed:x}-sfchild");
+        let cspec = Arc::new(ProbeSpec::new(2001, Some(child_name.clone()), trace.clone()));
+        let mut f = ProbeSpec::new(2000, Some(format!("c05-{seed:x}-sf")), trace.clone());
+        f.child_spawner = Some(std_child_spawner());
+        let fail = if p.chance(1, 2) { Step::Err } else { Step::PanicString };
+        f.pre_start = vec![Step::SpawnChild(cspec), Step::Yield, fail];
+        let sup = if p.chance(1, 2) { nodes.iter().find(|n| n.actor.get_status() == ActorStatus::Running).map(|n| n.actor.get_cell()) } else { None };
+        let f = Arc::new(f);
+        let r = spawn_probe(&f, sup).await;
+        if r.is_ok() {
+            v.push(("setup".into(), "a probe whose pre_start fails was spawned successfully".into()));
+        }
+        let mut child = ractor::registry::where_is(child_name.clone());
+        for _ in 0..200 {
+            if child.as_ref().map_or(true, |c| c.get_status() == ActorStatus::Stopped) {
+                break;
+            }
+            settle_ms(5).await;
+            child = ractor::registry::where_is(child_name.clone()).or(child);
+        }
+        if let Some(c) = child {
+            if c.get_status() != ActorStatus::Stopped {
+                v.push(("startup-failure-child-alive".into(), format!("an actor linked child {} in pre_start and then failed to start; 1 s later the child is {:?} (supervisor {:?})", c.get_id(), c.get_status(), c.try_get_supervisor().map(|s| (s.get_id(), s.get_status())))));
+                c.kill();
+                for _ in 0..200 {
+                    if c.get_status() == ActorStatus::Stopped {
+                        break;
+                    }
+                    settle_ms(5).await;
+                }
+            }
+        }
+    }
     // ---- teardown
     for nd in nodes.iter() {
         nd.actor.kill();
@@ -441,6 +533,7 @@ pub fn run_one(seed: u64, rt: Option<&tokio::runtime::Runtime>) -> Outcome {
             let intensity = *pr.pick(&[0u32, 30, 60]);
             crate::th::begin(seed, intensity);
             crate::ctl::ctl().set_rendezvous(ractor::verif::pt::LINK_BEFORE_LOCK, ractor::verif::pt::CLEANUP_AFTER_STOPPING);
+            crate::ctl::ctl().rdv_spins.store(30_000, std::sync::atomic::Ordering::SeqCst);
             let trace = Arc::new(Trace::new());
             let mut o = rt.block_on(body(seed, trace, true));
             crate::th::end();
@@ -449,6 +542,7 @@ pub fn run_one(seed: u64, rt: Option<&tokio::runtime::Runtime>) -> Outcome {
             o
         }
     };
+    crate::ctl::ctl().set_tap(None);
     for l in vt::global_leaks() {
         o.violations.push(("leak".into(), l));
     }
